@@ -53,9 +53,9 @@ static NvmVerifyResult verify_structure(const NvmModule *mod) {
         if (fn->code_offset > mod->code_size)
             return fail("function[%u] code_offset %u > code_size %u",
                         i, fn->code_offset, mod->code_size);
-        if (fn->code_offset + fn->code_length > mod->code_size)
-            return fail("function[%u] code_offset+length %u > code_size %u",
-                        i, fn->code_offset + fn->code_length, mod->code_size);
+        if ((uint64_t)fn->code_offset + fn->code_length > mod->code_size)  /* 64-bit sum: must not wrap */
+            return fail("function[%u] code_offset+length %llu > code_size %u",
+                        i, (unsigned long long)fn->code_offset + fn->code_length, mod->code_size);
         if (fn->name_idx >= mod->string_count)
             return fail("function[%u] name_idx %u >= string_count %u",
                         i, fn->name_idx, mod->string_count);
